@@ -47,6 +47,19 @@ func parseProtectedHeaders(encoded string) (*jwsProtectedHeader, error) {
 	for _, headerKey := range headerKeys {
 		delete(protected.ExtendedAttributes, headerKey)
 	}
+
+	// encoding/json matches member names to the fields of jwsProtectedHeader
+	// case-insensitively, while the JWT library and ExtendedAttributes only
+	// know the exact names. Reject names that differ from a defined header
+	// only in letter case, otherwise the two views of the header disagree.
+	for key := range protected.ExtendedAttributes {
+		for _, headerKey := range headerKeys {
+			if strings.EqualFold(key, headerKey) {
+				return nil, &signature.InvalidSignatureError{
+					Msg: fmt.Sprintf("jws envelope protected header %q is ambiguous with %q", key, headerKey)}
+			}
+		}
+	}
 	return &protected, nil
 }
 
